@@ -263,10 +263,19 @@ func genNest(t *rapid.T) harness.Case {
 
 const rule = "every stage (Parse; NextBlock+Extract+Rewrite under a G5 schedule; Render under 3 soft-break x IgnoreRaw x FilterTag{nil,GFM,always,never}; AppendBlock; RenderHTML; Format on Buffer and plain Writer; Walk; every accessor) under recover and a watchdog; non-trivial = input has invalid UTF-8, NUL, a lone CR, an unterminated construct at EOF (open bracket, odd backtick count, open comment, odd fence count) or parses to depth >= 16"
 
-func TestProperty(t *testing.T) {
-	harness.Run(t, harness.Plan{Prop: "C04", Checks: []harness.Check{
+func plan() harness.Plan {
+		return harness.Plan{Prop: "C04", Checks: []harness.Check{
 		{Name: "pipeline", Quick: 40000, Thorough: 600000, Gen: genDoc, Prop: prop, Rule: "G1/G2/G3 inputs: " + rule},
 		{Name: "long", Quick: 60, Thorough: 600, Gen: genLong, Prop: prop, Rule: "G1 long mode 2-16 KB: " + rule},
 		{Name: "nesting", Quick: 60, Thorough: 600, Gen: genNest, Prop: prop, Rule: "200-12000 repetitions of one opener (<= 12 KB; the library is quadratic to cubic in nesting depth, so sizes are bounded to keep the watchdog two orders of magnitude above the slowest case): " + rule},
-	}})
+	}}
+}
+
+func TestProperty(t *testing.T) {
+	harness.Run(t, plan())
+}
+
+// FuzzProperty is the native coverage-guided fuzz entry (thorough tier).
+func FuzzProperty(f *testing.F) {
+	harness.FuzzTarget(f, plan(), "pipeline", gen.SeedCorpus())
 }
